@@ -301,6 +301,14 @@ class Skeleton:
             raise Unsupported('memcmp args')
         if n in ('__builtin_ctz',):
             return 0
+        if n in ('_mm256_cmpgt_epi8', '_mm_cmpgt_epi8', '_mm_cmplt_epi8'):
+            # an ordering compare of two loaded vectors does not take part in the equality skeleton; its use for the
+            # sign of the result is judged by the unsigned-order rule.  Model it as a compare over the same lanes.
+            a = self.ev(args[0], env, fn, depth)
+            b = self.ev(args[1], env, fn, depth)
+            if isinstance(a, Load) and isinstance(b, Load):
+                return Eq([], a.width)
+            raise Unsupported('ordering compare of non-loads')
         cid = e.get('cid')
         g = self.facts.by_id.get(cid)
         if g is not None and g.short == 'in_page_32':
